@@ -42,6 +42,13 @@ Definition len {A} (l : list A) : N := N.of_nat (length l).
 Definition drop {A} (n : N) (l : list A) : list A := skipn (N.to_nat n) l.
 Definition take {A} (n : N) (l : list A) : list A := firstn (N.to_nat n) l.
 
+(* [ltake n l]: like [take] but never converts [n] to a unary number (n may be 2^32-1) *)
+Fixpoint ltake {A} (n : N) (l : list A) : list A :=
+  match l with
+  | [] => []
+  | x :: r => if n =? 0 then [] else x :: ltake (n - 1) r
+  end.
+
 Lemma len_nil {A} : len (@nil A) = 0. Proof. reflexivity. Qed.
 Lemma len_cons {A} (a : A) l : len (a :: l) = 1 + len l.
 Proof. unfold len. cbn [length]. lia. Qed.
